@@ -28,6 +28,8 @@ type body struct {
 	remainingContentLength int64
 	violatedContentLength  bool
 	hasContentLength       bool
+	// set for responses that carry a Content-Length but no content (HEAD requests, 304 responses)
+	noContentExpected bool
 }
 
 func newBody(str *Stream, contentLength int64) *body {
@@ -67,6 +69,10 @@ func (r *body) Read(b []byte) (int, error) {
 	r.remainingContentLength -= int64(n)
 	if err := r.checkContentLengthViolation(); err != nil {
 		return n, err
+	}
+	if err == io.EOF && r.hasContentLength && r.remainingContentLength > 0 && !r.noContentExpected {
+		// the message ended before the number of bytes announced in the Content-Length header was received
+		err = io.ErrUnexpectedEOF
 	}
 	return n, maybeReplaceError(err)
 }
